@@ -15,18 +15,21 @@ type Choices struct {
 }
 
 // NewChoices returns a generating choice source.
+//
 //go:norace
 func NewChoices(seed uint64) *Choices {
 	return &Choices{state: seed*0x9E3779B97F4A7C15 + 0x1234567}
 }
 
 // ReplayChoices returns a choice source answering from rec.
+//
 //go:norace
 func ReplayChoices(rec []uint32) *Choices {
 	return &Choices{replay: rec, isRep: true}
 }
 
 // IsReplay reports whether answers come from a recording.
+//
 //go:norace
 func (c *Choices) IsReplay() bool { return c.isRep }
 
@@ -40,6 +43,7 @@ func (c *Choices) next64() uint64 {
 }
 
 // Choose returns the next answer in [0,n).
+//
 //go:norace
 func (c *Choices) Choose(n int) int {
 	if n <= 1 {
@@ -61,6 +65,7 @@ func (c *Choices) Choose(n int) int {
 // ChooseWith records an answer that is computed by a policy (generate mode) so
 // that replay reproduces it; in replay mode it returns the recorded answer.
 // gen is only evaluated in generate mode.
+//
 //go:norace
 func (c *Choices) ChooseWith(n int, gen func(c *Choices) int) int {
 	if n <= 1 {
@@ -84,6 +89,7 @@ func (c *Choices) ChooseWith(n int, gen func(c *Choices) int) int {
 
 // Rand returns a value in [0,n) that is NOT recorded individually.  It must
 // only be used inside a ChooseWith generator (policy randomness).
+//
 //go:norace
 func (c *Choices) Rand(n int) int {
 	if n <= 1 {
@@ -93,10 +99,12 @@ func (c *Choices) Rand(n int) int {
 }
 
 // Bool is Choose(2)==1.
+//
 //go:norace
 func (c *Choices) Bool() bool { return c.Choose(2) == 1 }
 
 // Prob returns true with probability num/den; false is the "simple" answer.
+//
 //go:norace
 func (c *Choices) Prob(num, den int) bool {
 	if num <= 0 {
@@ -106,6 +114,7 @@ func (c *Choices) Prob(num, den int) bool {
 }
 
 // Range returns a value in [lo,hi].
+//
 //go:norace
 func (c *Choices) Range(lo, hi int) int {
 	if hi <= lo {
@@ -115,6 +124,7 @@ func (c *Choices) Range(lo, hi int) int {
 }
 
 // Perm returns a permutation of 0..n-1 (identity when all answers are 0).
+//
 //go:norace
 func (c *Choices) Perm(n int) []int {
 	p := make([]int, n)
@@ -129,5 +139,6 @@ func (c *Choices) Perm(n int) []int {
 }
 
 // Consumed is the number of answers given so far.
+//
 //go:norace
 func (c *Choices) Consumed() int { return len(c.Rec) }
